@@ -90,7 +90,7 @@ def run_scenario(args):
         if r != 'sat':
             out['status'] = 'inconclusive'; out['notes'].append('vacuous: no schedule within the bounds lets every thread finish (%s)' % r)
         else:
-            out['witness'] = decode(w, mod, brief=True)
+            out['witness'] = decode(w, mod)
         # 3. property oracles.  A model that matches a *listed* finding is recorded, its formula-level description is excluded
         #    and the oracle is asked again, so that a different violation of the same oracle is still found.
         from .known import PREDICATES
@@ -205,6 +205,30 @@ def main():
             results.append(r)
             print('  %-34s %-12s enc %6.1fs solve %6.1fs  %s' % (r['name'], r['status'], r.get('encode_s', 0), r.get('solver_s', 0), '; '.join(r['notes'])[:200]), flush=True)
     results.sort(key=lambda r: r['name'])
+    # replay every scenario's witness schedule (a passing run chosen by the solver) on the real build: the library must follow
+    # it step for step and finish with the same quiescent outcome; a divergence is an encoder defect (exit 2)
+    nvalid = 0
+    if os.environ.get('VERIF_NO_WITNESS_REPLAY') != '1':
+        from . import replay as rp
+        for r in results:
+            if not r.get('witness') or r['status'] == 'inconclusive': continue
+            spec = [s for s in specs if s['name'] == r['name']][0]
+            try:
+                rr = rp.run_replay(spec, r['witness'])
+            except Exception as e:
+                rr = {'status': 'error', 'detail': str(e)}
+            if rr.get('status') == 'error':
+                r['witness_replay'] = {'status': 'error', 'detail': rr.get('detail', '')[-300:]}
+                r['status'] = 'inconclusive'; r['notes'].append('witness replay failed to build/run: ' + rr.get('detail', '')[-200:])
+                continue
+            verdict = rr.get('verdict', '')
+            ok = not verdict.startswith('DIVERGED') and verdict not in ('TIMEOUT', 'STEP-LIMIT')
+            r['witness_replay'] = {'status': 'followed' if ok else 'diverged', 'verdict': verdict, 'native_steps': len(rr.get('steps', [])), 'model_steps': len(r['witness'].get('sites', []))}
+            if ok: nvalid += 1
+            else:
+                r['status'] = 'inconclusive'; r['notes'].append('ENCODING-MISMATCH on witness schedule: ' + verdict[:200])
+                print('ENCODING-MISMATCH property=%s scenario=%s: witness schedule not followed by the real build (%s)' % (prop, r['name'], verdict[:160]))
+            r['witness'].pop('sites', None)
     known = load_known()
     rc = 0; nviol = 0; printed = set()
     os.makedirs(os.path.join(VERIF, 'scratch', 'replay'), exist_ok=True)
@@ -231,7 +255,7 @@ def main():
                 rc = 2
                 print('ENCODING-MISMATCH property=%s scenario=%s: solver schedule did not reproduce on the real build (%s)' % (prop, r['name'], rep.get('detail', '')[:200]))
     if rc == 2: nviol_out = nviol
-    write_evidence(evpath, prop, tier, seed, results, time.time() - t0, nviol, mirkey=key)
+    write_evidence(evpath, prop, tier, seed, results, time.time() - t0, nviol, mirkey=key, nvalid=nvalid)
     print('[%s] %s  wall %.1fs' % (prop, {0: 'PASS', 1: 'VIOLATION', 2: 'INCONCLUSIVE'}[rc], time.time() - t0))
     sys.exit(rc)
 
@@ -244,7 +268,7 @@ def replay(path):
     except Exception as e:
         return {'status': 'error', 'detail': '%s: %s' % (type(e).__name__, e)}
 
-def write_evidence(path, prop, tier, seed, results, wall, nviol, mirkey='', note=''):
+def write_evidence(path, prop, tier, seed, results, wall, nviol, mirkey='', note='', nvalid=0):
     from . import props
     queries = [dict(q, scenario=r['name']) for r in results for q in r['queries']]
     fns = sorted(set(f for r in results for f in r.get('functions', [])))
@@ -258,12 +282,12 @@ def write_evidence(path, prop, tier, seed, results, wall, nviol, mirkey='', note
         'coverage': {
             'states': sum(r.get('stats', {}).get('stmts', 0) for r in results) or 1,
             'transitions': sum(r.get('stats', {}).get('steps', 0) for r in results) or 1,
-            'traces_validated_against_impl': sum(1 for r in results for v in r['violations'] if v.get('replay', {}).get('status') == 'reproduced'),
+            'traces_validated_against_impl': nvalid + sum(1 for r in results for v in r['violations'] if v.get('replay', {}).get('status') == 'reproduced'),
             'samples': samples or [{'note': note or 'no scenario ran'}],
             'explanation': 'states = MIR statement instances symbolically executed (merged per position); transitions = visible steps of the bounded '
                            'round-robin sequentialisation; every query is decided by z3 over all schedules expressible within the stated bounds',
             'scenarios': [{'name': r['name'], 'status': r['status'], 'stats': r.get('stats'), 'encode_s': r.get('encode_s'), 'solver_s': r.get('solver_s'),
-                           'notes': r['notes'], 'clauses': r.get('clauses')} for r in results],
+                           'notes': r['notes'], 'clauses': r.get('clauses'), 'witness_replay': r.get('witness_replay')} for r in results],
             'bounds': props.bounds_text(prop, tier),
             'queries_discharged': len(queries),
             'queries': queries[:400],
